@@ -8,6 +8,10 @@ CHECKS = {
    text="Theorems over a Gallina model of the settings chain for level lists of any length; prefer_important / is_marked_important / remove_important are regenerated from the source on every run; the hand-written chain is tied to the real Configurator by an exhaustive correspondence (2x3^7 per marked setting, 2^7 per plain setting, 2^6 per variable list) plus random mixed configurations.",
    note="Trusted: Coq kernel, vm_compute, translator tr_important.py, primitives of Model/PyVal.v, the harness. YAML/pykwalify outside the model.",
    technique="Rocq proof (induction over the level list) + translated kernel + exhaustive correspondence"),
+ "C04": dict(
+   text="Theorems for every outcome sequence, every N/retries/-f/ignore_timeouts and every initial progress over a Gallina model of one run's start/retry loop whose decision procedure (TerminationCheck) is regenerated from the source on every run: gap-free numbering 1..k<=N, failures record nothing, continue-iff the documented policy, bounded starts (N-completed+7), 127 abandons for good. Tied to the real Executor by the prefix-closed tree of all outcome sequences and random long sequences, in-process.",
+   note="Trusted: Coq kernel, vm_compute, translator tr_termination.py, scripted subprocess_with_timeout.run in the harness. Adapter parsing is C05/C12. Group abort after exit 127 is checked on the implementation under all three schedulers by the oracle.",
+   technique="Rocq proof (induction over outcome lists, measure argument) + translated decision procedure + exhaustive tree correspondence"),
 }
 PENDING_REASON = "check not built yet in this round (planned at level proof, see DESIGN.md section 5); not claimed until its check exists"
 
